@@ -16,19 +16,19 @@ import (
 type evKind int
 
 const (
-	evSeq evKind = iota
-	evComments     // WriteLeadingComments(x.<tok>.LeadingComments)
-	evMap          // AddMapping / AddNamedMapping of x.<tok>.Start
-	evLit          // constant text
-	evText         // text from a field of the node
-	evChild        // <field>.WriteTo(cw)
-	evLayout       // WriteSpace / WriteNewline / WriteIndent / IncreaseIndent / DecreaseIndent
-	evSemi         // WriteSemi
-	evOpt          // if cond { body } [else { alt }]
-	evLoop         // for … range x.<field> { body }
-	evRet       // early return
-	evTerm         // request to write the statement terminator that was left out (before a keyword)
-	evOther        // unrecognised call (fail closed where it matters)
+	evSeq      evKind = iota
+	evComments        // WriteLeadingComments(x.<tok>.LeadingComments)
+	evMap             // AddMapping / AddNamedMapping of x.<tok>.Start
+	evLit             // constant text
+	evText            // text from a field of the node
+	evChild           // <field>.WriteTo(cw)
+	evLayout          // WriteSpace / WriteNewline / WriteIndent / IncreaseIndent / DecreaseIndent
+	evSemi            // WriteSemi
+	evOpt             // if cond { body } [else { alt }]
+	evLoop            // for … range x.<field> { body }
+	evRet             // early return
+	evTerm            // request to write the statement terminator that was left out (before a keyword)
+	evOther           // unrecognised call (fail closed where it matters)
 )
 
 type pev struct {
@@ -41,7 +41,7 @@ type pev struct {
 	kids  []*pev
 	alt   []*pev
 	pos   token.Pos
-	start bool // map argument is <tok>.Start (not End)
+	start bool   // map argument is <tok>.Start (not End)
 	via   string // text events: the writer method used (WriteString / WriteRune)
 }
 
